@@ -73,6 +73,7 @@ CaseOK(c) ==
     [] c.kind = "audit" -> AuditOK(c)
     [] c.kind = "actables" -> ACTablesOK(c)
     [] c.kind = "load2" -> ConsumesExactlyOK(c)
+    [] c.kind = "leftover" -> LeftoverOK(c)
     [] c.kind = "savesize" -> SaveSizeOK(c)
     [] c.kind = "savefail" -> SaveFailOK(c)
     [] c.kind = "range" -> c.claim = HR!Addressed(c.blocks, c.o, c.l)
